@@ -356,6 +356,7 @@ func (x *Extractor) typeName(t types.Type) string {
 
 func (x *Extractor) fieldOf(v *RF, st types.Type, i int) *RF {
 	tn := x.typeName(st)
+	x.S.noteStruct(tn, st)
 	str := st.Underlying().(*types.Struct)
 	if at := v.SingleAtom(); at != nil && at.Name == "mk:"+tn && i < len(at.Args) {
 		return at.Args[i]
@@ -373,6 +374,7 @@ func (x *Extractor) fieldOf(v *RF, st types.Type, i int) *RF {
 
 func (x *Extractor) mkStruct(st types.Type, fields []*RF) *RF {
 	tn := x.typeName(st)
+	x.S.noteStruct(tn, st)
 	// all fields projections of the same value: that value
 	if len(fields) > 0 {
 		if at := fields[0].SingleAtom(); at != nil && strings.HasPrefix(at.Name, "fld:"+tn+".") && len(at.Args) == 1 {
@@ -1116,7 +1118,41 @@ func (fc *FC) load(u *ssa.UnOp) *RF {
 			return x.mkStruct(t, fs)
 		}
 	}
-	return s.MakeFn("deref", fc.Val(u.X))
+	// a load through some other pointer value (typically a call result): calls
+	// that received the pointer earlier and write through it changed the pointee
+	ptr := fc.Val(u.X)
+	if refs := u.X.Referrers(); refs != nil {
+		var muts []*ssa.Call
+		for _, ref := range *refs {
+			c, ok := ref.(*ssa.Call)
+			if !ok || !fc.Ctx.Reach[c.Block().Index] {
+				continue
+			}
+			if fc.defKind(c, cellKey{u.X, -1}) != 0 && fc.reaches(c, u) {
+				muts = append(muts, c)
+			}
+		}
+		switch len(muts) {
+		case 0:
+		case 1:
+			// a method that returns its receiver names the state after the call
+			// (p.Sort(); *p  is  *p.Sort())
+			c := muts[0]
+			if f := c.Common().StaticCallee(); f != nil && x.Eff != nil && len(c.Common().Args) > 0 && c.Common().Args[0] == u.X {
+				if sum := x.Eff.Summary(f); sum != nil && len(sum.Returns) == 1 && len(sum.Returns[0]) == 1 {
+					for o := range sum.Returns[0] {
+						if o.K == KParam && o.Idx == 0 && !o.Deep {
+							return s.MakeFn("deref", fc.Val(c))
+						}
+					}
+				}
+			}
+			return s.MakeFn("deref", s.MakeFn("after:"+fc.calleeName(c), ptr))
+		default:
+			return s.MakeFn("deref", s.MakeFn("after:"+x.W.InstrPos(muts[len(muts)-1]), ptr))
+		}
+	}
+	return s.MakeFn("deref", ptr)
 }
 
 // freeVar resolves a load of a captured variable through the creating function.
@@ -1470,7 +1506,9 @@ func (x *Extractor) inline(f *ssa.Function, args []*RF, parent *FC) *RF {
 		if _, isIface := t.Underlying().(*types.Interface); isIface {
 			continue
 		}
-		if ptrLike(t) {
+		// a struct value that merely contains slices is a value (its fields are atoms)
+		switch t.Underlying().(type) {
+		case *types.Pointer, *types.Slice, *types.Map, *types.Chan, *types.Signature:
 			ptrRes = true
 		}
 	}
@@ -1627,34 +1665,39 @@ func (fc *FC) BoundCallees(depth int) []*FC {
 	if depth <= 0 {
 		return out
 	}
-	seen := map[*ssa.Function]bool{fc.Fn: true}
-	var walk func(cur *FC, d int)
-	walk = func(cur *FC, d int) {
+	// one context per call site (a helper called twice with different
+	// arguments is two contexts); recursion is cut by the chain of callers
+	var walk func(cur *FC, d int, chain map[*ssa.Function]bool)
+	walk = func(cur *FC, d int, chain map[*ssa.Function]bool) {
 		cur.Ctx.Instrs(func(in ssa.Instruction) {
 			c, ok := in.(*ssa.Call)
-			if !ok {
+			if !ok || len(out) > 60 {
 				return
 			}
 			f := c.Common().StaticCallee()
-			if f == nil || f.Blocks == nil || seen[f] || f.Pkg == nil || !fc.X.W.IsLib[f.Pkg] || len(c.Common().Args) != len(f.Params) {
+			if f == nil || f.Blocks == nil || chain[f] || f.Pkg == nil || !fc.X.W.IsLib[f.Pkg] || len(c.Common().Args) != len(f.Params) {
 				return
 			}
-			seen[f] = true
 			bind := map[*ssa.Parameter]*RF{}
 			args := make([]*RF, len(f.Params))
 			for i, p := range f.Params {
 				args[i] = cur.Val(c.Common().Args[i])
+				if len(fc.Assume) > 0 {
+					args[i] = fc.Sub(args[i])
+				}
 				bind[p] = args[i]
 			}
 			sub := fc.X.newFC(f, bind, fc.Assume)
 			sub.bindArgs = args
 			out = append(out, sub)
 			if d > 1 {
-				walk(sub, d-1)
+				chain[f] = true
+				walk(sub, d-1, chain)
+				delete(chain, f)
 			}
 		})
 	}
-	walk(fc, depth)
+	walk(fc, depth, map[*ssa.Function]bool{fc.Fn: true})
 	return out
 }
 
@@ -1871,4 +1914,53 @@ func (x *Extractor) evalBySignCached(at *Atom, d *RF, assume []Assumption) Tri {
 	t := x.evalBySign(at.Name, d, assume)
 	x.signCache[key] = t
 	return t
+}
+
+// TailCallees: bound contexts of the module functions whose result this
+// function returns directly (`return helper(args)`), under its assumptions.
+func (fc *FC) TailCallees() []*FC {
+	var out []*FC
+	for _, rt := range fc.Ctx.Returns() {
+		for _, res := range rt.Results {
+			v := res
+			if ex, ok := v.(*ssa.Extract); ok {
+				v = ex.Tuple
+			}
+			c, ok := v.(*ssa.Call)
+			if !ok {
+				continue
+			}
+			f := c.Common().StaticCallee()
+			if f == nil || f.Blocks == nil || f.Pkg == nil || !fc.X.W.IsLib[f.Pkg] || len(c.Common().Args) != len(f.Params) {
+				continue
+			}
+			dup := false
+			for _, o := range out {
+				if o.Fn == f {
+					dup = true
+				}
+			}
+			if dup {
+				continue
+			}
+			bind := map[*ssa.Parameter]*RF{}
+			args := make([]*RF, len(f.Params))
+			for i, p := range f.Params {
+				args[i] = fc.Val(c.Common().Args[i])
+				if al, isAl := c.Common().Args[i].(*ssa.Alloc); isAl {
+					if _, isStruct := al.Type().Underlying().(*types.Pointer).Elem().Underlying().(*types.Struct); isStruct {
+						args[i] = fc.X.S.MakeFn("ref", fc.structAt(al, c))
+					}
+				}
+				if len(fc.Assume) > 0 {
+					args[i] = fc.Sub(args[i])
+				}
+				bind[p] = args[i]
+			}
+			sub := fc.X.newFC(f, bind, fc.Assume)
+			sub.bindArgs = args
+			out = append(out, sub)
+		}
+	}
+	return out
 }
